@@ -25,6 +25,7 @@ EXPLANATION = (
     "semantics (under the installed pandas 3 column assignment copies, so the explicit np.copy is not a necessary "
     "condition and is deliberately not checked).")
 EXPLANATION += (" A dispatch that depends on the VALUE of a coordinate is a violation. Premise: C09's get_cell rules (coordinate -> id).")
+EXPLANATION += (' Overrides of get_cell keep the base signature; importing the package executes no call statement at module level.')
 ASSUMPTIONS = ["pandas column assignment / drop semantics", "C09 (row i holds the cell with id i)"]
 
 DW = ENV + 'DiscreteWorld'
@@ -106,7 +107,9 @@ def run(cx: Cx):
     # ------------------------------------------------------------ clause 4: remove_cell_component
     check_atomic(cx, rem.qualname, ['ComponentNotFoundError'])
     from .common import check_overrides_forward
-    check_overrides_forward(cx, DW, ['add_cell_component', 'remove_cell_component'])
+    check_overrides_forward(cx, DW, ['add_cell_component', 'remove_cell_component', 'get_cell'])
+    from .common import check_import_has_no_side_effects
+    check_import_has_no_side_effects(cx, rule='R-GUARD')
     rs, rn = Sym(rem.params[0]), Sym(rem.params[1])
     rcells = Attr(rs, 'cells')
     for p in cx.walker.paths(rem, WalkOptions(unroll=1, callee_raises=False)):
@@ -153,7 +156,7 @@ def run(cx: Cx):
     sites = cx.effects.sites_of((DW, 'cells'))
     allowed = {DW + '.__init__', add.qualname, rem.qualname}
     for s in sites:
-        if s.owner_q not in allowed:
+        if not s.owned_within(allowed):
             cx.violation('R-DISC', s.fn.qualname, f"cells-{s.kind}", f"{s.describe()}: the cell table is written outside the constructor / "
                          f"add_cell_component / remove_cell_component", where=s.where)
     cx.floor('cell table write sites', len(sites), 3)
